@@ -32,6 +32,9 @@ LEVEL = "proof"
 FACTS = None
 COQ_DIRS = ("Common",)
 TRUSTED = [
+    "reference loss: every aggregated loss (candidate losses handed to the model, starting loss, loss of the returned ensemble) is computed "
+    "by the real aggregator + loss on the members AS THE HARNESS KNOWS THEM, all of them MaskedArrays as soon as one is (a complete member "
+    "= nothing masked), never on arrays read back from an OnlineSelector nor through the selector's own scoring of a plain/masked mixture",
     "loss oracle: aggregated losses are whatever the real Aggregator.aggregate + Loss + Selector._reduce return (finite floats, "
     "converted exactly with float.as_integer_ratio and sent as integers over one power-of-two denominator per call)",
     "np.argsort returns a sorting permutation (checked on every case by the extracted ok_sorting_perm; numpy's argsort is not stable, "
@@ -52,8 +55,10 @@ ASSUMPTIONS = [
 ]
 RULE = ("topk/greedy: 1..12 candidates, all option combinations, losses SquaredError/AbsoluteError + MeanAggregator, "
         "CategoricalCrossEntropy/ZeroOneLoss + MixedCategoricalAggregator, plain and masked predictions, and a synthetic table loss "
-        "(arbitrary small integers per weight vector, many ties); online: OnlineSelector.on_done job by job; predictor_order: every "
-        "latency order of <= 4 (quick) / 5 (thorough) members on the thread backend. non-trivial = at least one greedy step accepted, "
+        "(arbitrary small integers per weight vector, many ties); greedy with masks also has members that predict every sample (all-False mask, "
+        "or a plain ndarray next to masked members); online: OnlineSelector.on_done job by job, a random mixture of jobs covering all / a part of the samples; predictor_order: every "
+        "latency order of <= 4 (quick) / 5 (thorough) members on the thread backend, sequences of up to 40 calls on one ensemble (job numbers "
+        "beyond 10 and 100) and ensembles of 11-13 members with sampled latency orders. non-trivial = at least one greedy step accepted, "
         "or a tie among the candidate losses, or a completion order different from the submission order")
 
 F_OKORDER, F_TOPK, F_OKTOPK, F_INIT, F_CONT, F_STEP, F_FINAL, F_OKGREEDY, F_NOWORSE, F_RUN, F_BYID, F_OKMEMBERS, F_ARGSORT = range(2001, 2014)
@@ -175,14 +180,29 @@ def build(case):
         loss = CategoricalCrossEntropy() if kind == "cce" else ZeroOneLoss(predict_proba=True)
         agg = MixedCategoricalAggregator()
     if masks is not None:
+        plain = case.get("plain") or [False] * len(preds)
         out = []
-        for p, mk in zip(preds, masks):
+        for p, mk, pl in zip(preds, masks, plain):
             mk = np.array(mk, dtype=bool)
             if p.ndim == 2:
                 mk = np.repeat(mk[:, None], p.shape[1], axis=1)
-            out.append(np.ma.masked_array(p, mask=mk))
+            # a member that predicts every sample may come as a plain ndarray (plain[i]) or with an all-False mask
+            out.append(p if (pl and not mk.any()) else np.ma.masked_array(p, mask=mk))
         preds = out
     return y, preds, loss, agg
+
+
+def reference_preds(preds):
+    """The members as the harness knows them, for the REFERENCE loss: if any member carries a mask every member becomes
+    a MaskedArray (a plain member = nothing masked), so that the real aggregator takes its mask-aware path whatever
+    mixture of plain / masked arrays the selector was given or has stored."""
+    if not any(isinstance(p, np.ma.MaskedArray) for p in preds):
+        return preds
+    return [p if isinstance(p, np.ma.MaskedArray) else np.ma.masked_array(p, mask=np.zeros(p.shape, dtype=bool)) for p in preds]
+
+
+def mixed_plain(preds):
+    return any(not isinstance(p, np.ma.MaskedArray) for p in preds) and any(isinstance(p, np.ma.MaskedArray) and np.ma.getmaskarray(p).any() for p in preds)
 
 
 def opts_kwargs(o):
@@ -201,27 +221,34 @@ def opts_desc(o, n):
 
 # ------------------------------------------------------------------ the loss oracle = the real code
 class Oracle:
-    """Aggregated losses computed by the real selector object, memoised per multiset."""
+    """Aggregated losses computed by the real selector object's aggregator + loss, memoised per multiset, on the
+    REFERENCE form of the members (reference_preds): the judge of `no_worse` and the losses the model is driven with do
+    not depend on how the selector scores candidates internally, nor on the arrays an OnlineSelector has stored."""
 
     def __init__(self, S, y, preds):
-        self.S, self.y, self.preds, self.memo = S, y, preds, {}
+        self.S, self.y, self.preds, self.memo = S, y, reference_preds(preds), {}
+
+    def _agg(self, members, w=None):
+        if len(set(type(p) for p in members)) > 1:  # cannot happen after reference_preds
+            raise AssertionError("reference members of mixed types")
+        return self.S._evaluate(self.y, self.S._aggregate(members, w) if w is not None else self.S._aggregate(members))
 
     def single(self, i):
         return frac(self.S._evaluate(self.y, self.preds[i]))
 
     def start(self, init):  # weights=None, members in the order of the starting list (as the code does)
-        return frac(self.S._evaluate(self.y, self.S._aggregate([self.preds[i] for i in init])))
+        return frac(self._agg([self.preds[i] for i in init]))
 
     def multi(self, ms):  # np.unique + counts / sum, as the code does
         key = tuple(sorted(ms))
         if key not in self.memo:
             idx, cnt = np.unique(list(ms), return_counts=True)
             w = cnt / np.sum(cnt)
-            self.memo[key] = frac(self.S._evaluate(self.y, self.S._aggregate([self.preds[i] for i in idx], w)))
+            self.memo[key] = frac(self._agg([self.preds[i] for i in idx], w))
         return self.memo[key]
 
     def returned(self, idx, w):  # the loss of what select() returned
-        return frac(self.S._evaluate(self.y, self.S._aggregate([self.preds[i] for i in idx], np.array(w))))
+        return frac(self._agg([self.preds[i] for i in idx], np.array(w)))
 
 
 def drive_model(m, fixed, o, n, order, orc, seed):
@@ -229,6 +256,7 @@ def drive_model(m, fixed, o, n, order, orc, seed):
     -> dict(status='done'|'allnan'|'fuel', sel, loss, rounds, table, bags, L0, borderline)"""
     eps = frac(o["eps_tol"])
     sel = m.call(F_INIT, [opts_enc(o, 0), order])
+    init = list(sel)
     L0 = orc.start(sel)
     lmin, it, table, bags, borderline = L0, 0, {}, [], False
     rs = np.random.RandomState(seed)
@@ -258,7 +286,7 @@ def drive_model(m, fixed, o, n, order, orc, seed):
             status = "done"
         else:
             sel, lmin, it = sel + [i], cand[i], it + 1
-    return dict(status=status, sel=sel, loss=lmin, rounds=it, table=table, bags=bags, L0=L0, borderline=borderline)
+    return dict(status=status, sel=sel, loss=lmin, rounds=it, table=table, bags=bags, L0=L0, borderline=borderline, init=init)
 
 
 def full_run(m, fixed, o, n, order, run):
@@ -338,6 +366,10 @@ def compare_greedy(m, S, y, preds, o, res, impl_status, impl_out):
     res["desc"] = res["desc"] + ["model=%s" % run["status"], "rounds=%s" % (run["rounds"] if run["rounds"] < 6 else "6+")]
     res["nontrivial"] = run["rounds"] > 0 or len(set(ints)) < n
     sig = dict(early_stopping=bool(o["es"]), with_replacement=bool(o["repl"]), bagging=bool(o["bag"]), max_it_neg=o["max_it"] < 0)
+    mixed = dict(mixed_plain=True) if mixed_plain(preds) else {}
+    sig.update(mixed)
+    if mixed:
+        res["desc"] = res["desc"] + ["mixed_plain_and_masked"]
     # the driven run and the complete extracted greedy agree (ties the harness loop to Model.loop)
     for r in runs:
         if r["status"] != "done":
@@ -367,7 +399,23 @@ def compare_greedy(m, S, y, preds, o, res, impl_status, impl_out):
     for name, f in zip(["wf_indices", "wf_count", "wf_weights_positive", "wf_weights_sum", "wf_all"], flags):
         if not f or len(w) != len(idx):
             return dict(res, ok=False, clause=name, detail=dict(idx=idx, w=w, k=o["k"], k_init=o["k_init"], n=n))
-    # --- correspondence with the repaired model
+    # --- oracle: no worse than the starting ensemble, judged with the reference loss (claimed with early stopping; F20 without)
+    try:
+        Lf = orc.returned(idx, w)
+    except NonFinite:
+        return dict(res, ok=False, clause="no_worse", sig=sig, detail="loss of the returned ensemble is not finite")
+    L0 = max(r["L0"] for r in runs)  # ties in argsort: the starting ensemble is one of the admissible ones
+    tolL = max(abs(L0), Fraction(1)) / (1 << 30)
+    ints2, _ = to_scale([tolL, L0, Lf])
+    worse = None
+    # the untouched starting ensemble is returned (uniform weights): its loss IS the starting loss (Model: sel = init /\ loss = L0);
+    # re-evaluating it with explicit weights instead of weights=None only adds rounding, which a 0/1 loss turns into 0 vs 1 at a tie
+    untouched = len(set(w)) == 1 and any(sorted(r["init"]) == idx for r in runs)
+    if not untouched and not m.call(F_NOWORSE, ints2):
+        worse = dict(res, ok=False, clause="no_worse", sig=sig, detail=dict(start=float(L0), final=float(Lf), idx=idx, w=w))
+    if worse is not None and o["es"]:
+        return worse  # the property itself fails: reported before any disagreement with the model
+    # --- correspondence with the repaired model (driven with the reference losses)
     if all(r["status"] == "fuel" for r in runs):
         res["desc"] = res["desc"] + ["inconclusive:model_long_run"]
         res["nontrivial"] = False
@@ -389,18 +437,10 @@ def compare_greedy(m, S, y, preds, o, res, impl_status, impl_out):
                 return dict(res, nontrivial=False, desc=res["desc"] + ["skipped:rounding_borderline"])
             r = [r for r in runs if r["status"] == "done"][0]
             fin = m.call(F_FINAL, [n, r["sel"]])
-            return dict(res, ok=False, kind="corr", clause="greedy_selection",
+            return dict(res, ok=False, kind="corr", clause="greedy_selection", sig=dict(mixed),
                         detail=dict(impl=[idx, w], model=[[f[0] for f in fin], [f[1] / f[2] for f in fin]], model_sel=r["sel"], order=r["order"]))
-    # --- oracle: no worse than the starting ensemble (claimed with early stopping; F20 without)
-    try:
-        Lf = orc.returned(idx, w)
-    except NonFinite:
-        return dict(res, ok=False, clause="no_worse", sig=sig, detail="loss of the returned ensemble is not finite")
-    L0 = run["L0"]
-    tolL = max(abs(L0), Fraction(1)) / (1 << 30)
-    ints2, _ = to_scale([tolL, L0, Lf])
-    if not m.call(F_NOWORSE, ints2):
-        return dict(res, ok=False, clause="no_worse", sig=sig, detail=dict(start=float(L0), final=float(Lf), idx=idx, w=w))
+    if worse is not None:
+        return worse
     return res
 
 
@@ -434,6 +474,8 @@ def check_online(case):
         mk = lambda: TopKSelector(SquaredError(), k=o["k"])
     online = OnlineSelector(y=y, selector=mk(), ensemble=None, load_predictor_func=None)
     nt, first_total = False, None
+    ref = []  # the finished jobs' predictions as the harness knows them (never read back from the selector)
+    cov = set()
     for j, job in enumerate(case["jobs"]):
         if job["fail"]:
             out = {"objective": "F_fail", "online_selector": {"y_pred": [], "y_pred_idx": []}}
@@ -443,14 +485,21 @@ def check_online(case):
         if case["selector"] == "greedy":
             online.selector = mk()  # same seed for every call, so that the harness can reproduce the draws
         st, e = with_watchdog(lambda: online.on_done(types.SimpleNamespace(id="0.%d" % j, output=out)))
-        preds = list(online.y_predictors)
-        n = len(preds)
+        n = len(online.y_predictors)
+        if not job["fail"]:
+            full = np.zeros_like(y, dtype=float)
+            mask = np.ones(y.shape, dtype=bool)
+            full[out["online_selector"]["y_pred_idx"]] = out["online_selector"]["y_pred"]
+            mask[out["online_selector"]["y_pred_idx"]] = False
+            ref.append(np.ma.masked_array(full, mask=mask))
+            cov.add("complete" if not mask.any() else "partial")
+        preds = list(ref)
         r = dict(res, desc=res["desc"] + ["n=%d" % n])
         if job["fail"]:
             if st != "ok" or n != before:
                 return dict(r, ok=False, clause="online_failed_job", detail=repr(e))
             continue
-        if n != before + 1 or online.y_predictors_job_ids[-1] != "0.%d" % j:
+        if n != before + 1 or n != len(ref) or online.y_predictors_job_ids[-1] != "0.%d" % j:
             return dict(r, ok=False, clause="online_bookkeeping", detail=dict(n=n, before=before))
         impl_out = e if st != "ok" else (online.selected_predictors_indexes, online.selected_predictors_weights)
         if case["selector"] == "greedy":
@@ -470,7 +519,7 @@ def check_online(case):
         res["desc"] = [d for d in r["desc"] if not d.startswith("n=")]
     if first_total is not None:
         return first_total
-    return dict(res, nontrivial=bool(nt), desc=list(dict.fromkeys(res["desc"])))
+    return dict(res, nontrivial=bool(nt), desc=list(dict.fromkeys(res["desc"] + ["coverage=%s" % ("mixed" if len(cov) > 1 else "".join(cov) or "none")])))
 
 
 def _online_topk(m, S, y, preds, k, res, st, out):
@@ -619,6 +668,8 @@ def gen_masks(rng, n, msamp):
         mk = [rng.random() < 0.3 for _ in range(msamp)]
         if all(mk):
             mk[rng.randrange(msamp)] = False
+        if rng.random() < 0.3:
+            mk = [False] * msamp  # a member that predicts every sample, next to members that predict a part
         masks.append(mk)
     # every sample is seen by at least one member of any pair? not needed: a fully masked cell is ignored by the masked mean
     return masks
@@ -656,6 +707,8 @@ def gen_case(rng, i, small=False):
         case = dict(kind=kind, y=y, preds=preds)
         if rng.random() < 0.3:
             case["masks"] = gen_masks(rng, n, msamp)
+            if rng.random() < 0.25:  # complete members handed over as plain ndarrays instead of all-False masks
+                case["plain"] = [not any(mk) and rng.random() < 0.6 for mk in case["masks"]]
     return case, n
 
 
@@ -688,7 +741,8 @@ def gen_online(count):
             y = [rng.randint(-4, 4) / 4 for _ in range(msamp)]
             jobs = []
             for _ in range(rng.randint(1, 7)):
-                idx = sorted(rng.sample(range(msamp), rng.randint(1, msamp)))
+                # a mixture of jobs that predict every validation sample and jobs that predict a part of them
+                idx = list(range(msamp)) if rng.random() < 0.4 else sorted(rng.sample(range(msamp), rng.randint(1, msamp)))
                 jobs.append(dict(fail=rng.random() < 0.15, idx=idx, pred=[rng.randint(-8, 8) / 4 for _ in idx]))
             o = gen_opts(rng, 3, "se", rng.randrange(8))
             if o["max_it"] == 0:
@@ -739,6 +793,8 @@ def shrink_sel(case):
             c = dict(case, preds=case["preds"][:i] + case["preds"][i + 1:])
             if case.get("masks"):
                 c["masks"] = case["masks"][:i] + case["masks"][i + 1:]
+            if case.get("plain"):
+                c["plain"] = case["plain"][:i] + case["plain"][i + 1:]
             if case["kind"] == "table" and case["table"].startswith("weight_of:") and int(case["table"].split(":")[1]) >= n - 1:
                 continue
             yield c
@@ -754,7 +810,9 @@ def shrink_sel(case):
                     c["masks"] = mk
                 yield c
         if case.get("masks"):
-            yield {k: v for k, v in case.items() if k != "masks"}
+            yield {k: v for k, v in case.items() if k not in ("masks", "plain")}
+        if case.get("plain"):
+            yield {k: v for k, v in case.items() if k != "plain"}
         if case["kind"] in ("se", "ae"):
             for i in range(n):
                 for j in range(ms):
@@ -792,6 +850,6 @@ def streams(tier):
     return [
         Stream("topk", mark_search(gen_topk(5000 if th else 300)), searching("topk", check_topk), shrink_sel, timeout=240),
         Stream("greedy", mark_search(gen_greedy(8000 if th else 400)), searching("greedy", check_greedy), shrink_sel, timeout=240),
-        Stream("online", mark_search(gen_online(1000 if th else 60)), searching("online", check_online), shrink_online, timeout=240),
+        Stream("online", mark_search(gen_online(1500 if th else 160)), searching("online", check_online), shrink_online, timeout=240),
         Stream("predictor_order", gen_predictor(5 if th else 4), check_predictor, shrink_predictor, timeout=240),
     ]
